@@ -99,6 +99,14 @@ type mwPlan struct {
 	bindings int
 }
 
+func (p *mwPlan) schemaString() string {
+	s := p.String()
+	if i := strings.Index(s, "} tasks"); i > 0 {
+		return s[:i+1]
+	}
+	return s
+}
+
 func (p *mwPlan) String() string {
 	var sb strings.Builder
 	sb.WriteString("schema{")
